@@ -202,18 +202,44 @@ def seek_validates(tu):
     if off is None or bkt is None:
         raise AnalysisError("BTreeItems_seek commits a non-variable position")
 
-    def validates(e):
-        """(has lower test, has upper test against bkt->len) in expression e"""
-        lo = up = False
-        for x in e.walk():
-            if x.k == "BinaryOperator" and x.v in ("<", ">=", ">", "<="):
-                a, b = strip(x.kids[0]), strip(x.kids[1])
-                if path(a) == off and const_int(b) == 0 and x.v == "<":
-                    lo = True
-                if path(a) == off and x.v == ">=" and b is not None and b.k == "MemberExpr" \
-                        and b.n == "len" and path(b.kids[0]) == bkt:
-                    up = True
-        return lo, up
+    CASES = ("negative", "in range", "at or beyond len")
+
+    def truth(e, case):
+        """value of expression e when the offset is in the given case, or None
+        when e is not about the offset"""
+        e = strip(e)
+        if e is None:
+            return None
+        if e.k == "ParenExpr":
+            return truth(e.kids[0], case)
+        if e.k == "UnaryOperator" and e.v == "!":
+            v = truth(e.kids[0], case)
+            return None if v is None else not v
+        if e.k == "BinaryOperator" and e.v in ("&&", "||"):
+            a, b = truth(e.kids[0], case), truth(e.kids[1], case)
+            if a is None or b is None:
+                return None
+            return (a and b) if e.v == "&&" else (a or b)
+        if e.k == "BinaryOperator" and e.v in ("<", ">=", ">", "<="):
+            a, b = strip(e.kids[0]), strip(e.kids[1])
+            op = e.v
+            if path(b) == off and path(a) != off:
+                a, b = b, a
+                op = {"<": ">", ">": "<", "<=": ">=", ">=": "<="}[op]
+            if path(a) != off:
+                return None
+            if const_int(b) == 0:
+                neg = case == "negative"
+                return {"<": neg, ">=": not neg, "<=": None, ">": None}[op]
+            if b is not None and b.k == "MemberExpr" and b.n == "len" and path(b.kids[0]) == bkt:
+                big = case == "at or beyond len"
+                return {">=": big, "<": not big, ">": None, "<=": None}[op]
+            if b is not None and b.k == "BinaryOperator" and b.v == "-" and const_int(b.kids[1]) == 1:
+                bb = strip(b.kids[0])
+                if bb is not None and bb.k == "MemberExpr" and bb.n == "len" and path(bb.kids[0]) == bkt:
+                    big = case == "at or beyond len"
+                    return {">": big, "<=": not big, ">=": None, "<": None}[op]
+        return None
 
     def reach(start, stop):
         seen, st = set(), [start]
@@ -226,14 +252,22 @@ def seek_validates(tu):
         return seen
     findings = []
     commit = stores["currentoffset"][0]
-    ok_lo = ok_up = False
+    # for each case of the offset: is the commit reachable?  A dominating
+    # branch whose condition (directly, or through a flag computed from such a
+    # condition) has a definite value in that case and whose corresponding edge
+    # cannot reach the commit excludes the case.
+    excluded = set()
     for g in live:
         if g.kind != "branch" or g.e is None or g.id not in dom[commit.id]:
             continue
         e = strip(g.e)
-        exprs = [e]
-        if e.k == "DeclRefExpr":
-            # a flag computed earlier: all of its definitions
+        exprs = [g.e]
+        neg_flag = False
+        while e is not None and e.k == "UnaryOperator" and e.v == "!":
+            neg_flag = not neg_flag
+            e = strip(e.kids[0])
+        is_flag = e is not None and e.k == "DeclRefExpr"
+        if is_flag:
             exprs = []
             for x in fn.walk():
                 if x.k == "BinaryOperator" and x.v == "=" and path(x.kids[0]) == e.n:
@@ -242,14 +276,18 @@ def seek_validates(tu):
                     exprs.append(x.kids[-1])
             if not exprs:
                 continue
-        lo = all(validates(x)[0] for x in exprs)
-        up = all(validates(x)[1] for x in exprs)
-        if not (lo or up):
-            continue
-        fs = [s2 for l, s2 in g.succ if l == "T"]
-        if fs and commit.id not in reach(fs[0], g):
-            ok_lo = ok_lo or lo
-            ok_up = ok_up or up
+        for case in CASES:
+            vals = [truth(x, case) for x in exprs]
+            if any(v is None for v in vals) or len(set(vals)) != 1:
+                continue
+            v = vals[0]
+            if is_flag and neg_flag:
+                v = not v
+            fs = [s2 for l, s2 in g.succ if l == ("T" if v else "F")]
+            if fs and commit.id not in reach(fs[0], g):
+                excluded.add(case)
+    ok_lo = "negative" in excluded
+    ok_up = "at or beyond len" in excluded
     if not (ok_lo and ok_up):
         findings.append(dict(
             rule="INDEX-GUARD", function="BTreeItems_seek", file=fn.f, line=commit.line,
